@@ -20,6 +20,9 @@ type Options struct {
 	IndentSize         int
 	AlignAmounts       bool
 	MinAlignmentColumn int
+	// SkipLines (0-based) are left as they are: lines with a syntax error hold text that is not in the journal,
+	// rewriting them from the journal would delete it.
+	SkipLines map[int]bool
 }
 
 func DefaultOptions() Options {
@@ -158,8 +161,11 @@ func formatTransactionWithOpts(tx *ast.Transaction, mapper *lsputil.PositionMapp
 
 	for i := range tx.Postings {
 		posting := &tx.Postings[i]
-		formatted := formatPostingWithOpts(posting, alignment, commodityFormats, indent, opts.AlignAmounts)
 		line := posting.Range.Start.Line - 1
+		if opts.SkipLines[line] {
+			continue
+		}
+		formatted := formatPostingWithOpts(posting, alignment, commodityFormats, indent, opts.AlignAmounts)
 
 		edit := protocol.TextEdit{
 			Range: protocol.Range{
